@@ -123,3 +123,50 @@ Proof.
   - rewrite Hctx, firstN_prefix. auto.
   - rewrite Hctx, firstN_prefix. auto.
 Qed.
+
+(* ---- Captured::decode_partial: successive partial decodes partition the captured data ---- *)
+Definition one_value (fuel : nat) (c : cons) : M (tlv * cons) := mandatory (process_next_value c None (rd fuel)).
+
+Theorem decode_partial_one m t d rest fuel : GrammarP.enc m t d -> octets_ok (d ++ rest) = true ->
+  (size t <= fuel)%nat -> decode_partial m (one_value fuel) (d ++ rest) = Ok (t, rest).
+Proof.
+  intros He Hok Hf. unfold decode_partial, decode_src, one_value, mandatory.
+  pose proof (proj1 (grammar_complete m) t d He fuel (mkCons Unbounded m) rest None Hf eq_refl Hok I I) as H.
+  unfold pure_src. unfold bind at 1. unfold bind at 1. rewrite H. reflexivity.
+Qed.
+
+(* a partial decode that succeeds removes exactly one well-formed value from the front *)
+Theorem decode_partial_sound m fuel bytes t r : octets_ok bytes = true ->
+  decode_partial m (one_value fuel) bytes = Ok (t, r) ->
+  exists d, GrammarP.enc m t d /\ bytes = d ++ r.
+Proof.
+  intros Hok H. unfold decode_partial, decode_src, one_value in H.
+  destruct ((rc <- mandatory (process_next_value (mkCons Unbounded m) None (rd fuel));;
+             (let '(r0, c) := rc in cons_exhausted c;;; ret r0)) (pure_src bytes None)) as [[v| | | |] s'] eqn:E; try discriminate.
+  injection H as -> <-.
+  apply bind_ok_inv in E as ([t0 c1] & s1 & E1 & E2).
+  unfold mandatory in E1. apply bind_ok_inv in E1 as ([o c2] & s2 & E1 & E1').
+  destruct o as [t1|]; [|discriminate]. injection E1' as <- <- <-.
+  destruct (value_sound fuel (grammar_sound fuel) (mkCons Unbounded m) (pure_src bytes None) t1 c2 s2 eq_refl Hok E1)
+    as (Hn & -> & d & Hd & Hrem & _).
+  cbn [cons_exhausted cst] in E2. unfold bind, ret in E2. injection E2 as <- <-.
+  exists d. split; [exact Hd|exact Hrem].
+Qed.
+
+(* k values captured, k partial decodes: the values in order, nothing lost, nothing left *)
+Theorem decode_partials_partition m ts ds fuel : encs m ts ds -> octets_ok ds = true ->
+  (length ds <= fuel)%nat ->
+  decode_partials m (one_value fuel) (length ts) ds = Ok (ts, []).
+Proof.
+  intros He. induction He as [|t ts d ds Ht Hts IH]; intros Hok Hf; [reflexivity|].
+  cbn [length decode_partials].
+  rewrite (decode_partial_one m t d ds fuel Ht Hok).
+  2:{ pose proof (proj1 (enc_size m) t d Ht). rewrite app_length in Hf. lia. }
+  rewrite IH; [reflexivity|apply octets_ok_app_r in Hok; exact Hok|rewrite app_length in Hf; lia].
+Qed.
+
+Example decode_partials_example :
+  decode_partials Der (one_value 10) 2 [2; 1; 5; 48; 3; 1; 1; 255] =
+    Ok ([TPrim T_INTEGER [5]; TCons T_SEQUENCE [TPrim T_BOOLEAN [255]]], []) /\
+  decode_partial Der (one_value 10) [2; 1; 5; 48; 3; 1; 1; 255] = Ok (TPrim T_INTEGER [5], [48; 3; 1; 1; 255]).
+Proof. vm_compute. split; reflexivity. Qed.
